@@ -63,9 +63,15 @@ The harness adds to clause 5: the same call on a buffer already used by another 
 the same bits as on the NaN-filled one (the result may not depend on the previous contents of the output slice).
 
 Clauses 1-3 and 5 use a purely relative rounding model; they are not asserted when an input magnitude lies outside
-2^-340 .. 2^340.  Near-overflow systems are generated and compared with the model only.  Tiny / subnormal systems
-(entries below 2^-340) are judged by clause 1b with an absolute underflow allowance - see `tiny_regime` - whenever a
-vector is returned at a tolerance >= 1e-12.
+2^-340 .. 2^340.  Systems with entries outside that range - tiny / subnormal, near-overflow, and since the fourth seeded
+round MIXED EXTREMES (subnormal rows next to normal ones, rows near 2^1000 next to ordinary ones) - are judged by clause 1b
+with an absolute underflow allowance built from the exact multipliers and pivots of the order under test - see
+`tiny_regime` and `lu_componentwise` - whenever a vector is returned at a tolerance >= 1e-12; an equation whose bound
+(|L||U||x|)_i + |b_i| reaches 2^1024 is not judged, a NaN / infinite component is a failure on the certificate `_finite_owed`
+(nothing in the exact elimination comes near the overflow threshold), a refusal of a system certified well conditioned
+(clause 3) is a failure when the entries lie within 2^-990 .. 2^1000.  Two rows that differ by 2^1000 or more are outside
+every clause (the multiplier larger row / pivot of the smaller row is not a number; the unmodified code then returns
+NaN / inf components: counted in the notes of every run, `_multiplier_overflow`).
 
 "identically for every accepted container type" is decided inside the harness (every other container kind
 that can hold the numbers is called on the same request; any difference is a FAIL verdict).
@@ -96,7 +102,11 @@ RULE = ("exhaustive: all 625 2x2 matrices over -2..2 x 4 right-hand sides x tol 
         "an entry 2^-53..2^-90 of its own row's maximum in the column of an unknown 2^53..2^94 times the others (and the mirror image: "
         "one entry 2^53..2^90 times the rest of its row, tiny unknown), n = 2..10, dense / dominant / banded / small-integer / dyadic "
         "(f32-representable) bases, rows shuffled, row scalings none / 2^+-30 / 2^+-100, the 2x2 instances for every exponent 50..95, "
-        "triangular solves of the same kind. non-trivial = the model answers with a solution vector of length >= 1 or refuses as singular "
+        "triangular solves of the same kind; mixed extremes inside one system (fourth seeded round): subnormal rows (2^-1056..2^-1000) next "
+        "to small normal rows (2^-70..2^-50), or rows near the top of the range (2^900..2^1010) next to ordinary ones, so that a subnormal "
+        "multiplier meets a pivot-row entry 2^1000 times larger, n = 2..6, five bases, column scalings on the huge side, rows shuffled, "
+        "the 2x2 / 3x3 instances for every exponent (judged by clause 1b with the underflow allowance); a few systems with row ratios "
+        "above 2^1023 (model comparison). non-trivial = the model answers with a solution vector of length >= 1 or refuses as singular "
         "(shape errors and panics are trivial); distinct = distinct request lines")
 
 U = Fraction(1, 2 ** 53)
@@ -338,6 +348,9 @@ LU_NMAX = 24                              # exact elimination only up to this or
 INF_RATIO = Fraction(10 ** 40)
 QUANTUM = Fraction(1, 2 ** 1074)          # the smallest positive binary64 number
 TINY_HI = Fraction(2 ** 900)
+OVERFLOW = Fraction(2 ** 1024)            # a bound that reaches this has left the number range
+SUBNORMAL_X = Fraction(1, 2 ** 1021)      # a computed component below this may have lost bits to gradual underflow
+BIG_OK = Fraction(2 ** 1000)              # "far from overflow"
 
 
 def residuals(A, b, x, n):
@@ -364,12 +377,22 @@ def _ratio(r, den, n):
     return abs(r) / (n * U * den)
 
 
-def lu_componentwise(A, b, x, n, r=None, ax=None, quantum=None):
+def lu_componentwise(A, b, x, n, r=None, ax=None, quantum=None, info=None):
     """clause 1b with the exact |L||U| of scaled partial pivoting.  -> (verdict, ratio, orders)
     verdict True: the bound holds for an admissible pivot order; False: violated for every admissible order;
     None: not judged.  ratio = smallest over the orders evaluated of max_i |r_i| / (n u ((|L||U||x|)_i + |b_i|)).
-    `quantum` (tiny regime only, see `tiny_regime`): an absolute allowance quantum * (1 + max|l|) is taken off every
-    |r_i| first, and every computed entry is uncertain by (k+1) 2^-1074 (1 + max|l|) more."""
+    `quantum` (systems with entries outside 2^-340 .. 2^340 only, see `tiny_regime`): gradual underflow - a multiplier, a
+    product or a quotient below 2^-1022 is rounded to a multiple of Q = 2^-1074, an ABSOLUTE error - is allowed for.  With the
+    exact multipliers l_ik of the order under test, for the equation that ends up in position i the amount
+        2^6 Q ( (i + 1)  +  sum_{k<=i} |l_ik| ((n - k) + |u_kk| [|x_k| < 2^-1021])
+                         +  sum_j (min(i,j) + 1) |x_j|  +  sum_{j<i} |u_jj| |x_j| [|l_ij| < 2^-1021] )
+    is taken off |r_i| first: the products factor * b_k; the products and the quotient of back-substitution row k, which
+    reach equation i through l_ik; the products l_ik u_kj, and l_ij u_jj missing the entry it was computed from by Q |u_jj| / 2
+    when the multiplier itself underflowed - each times the unknown it multiplies.  (`quantum`, the caller's coarser amount
+    2^6 n^2 Q (1 + |x|_inf), stays allowed on top for systems whose rows are all of one magnitude, as before.)  Every
+    computed entry of a row is uncertain by E_i more, E_i' = E_i + |l_ik| E_k + Q (1 + max_j |u_kj| [|l_ik| < 2^-1021]) per
+    elimination step, and an equation whose bound (|L||U||x|)_i + |b_i| reaches 2^1024 is not judged (the formula of the
+    statement leaves the number range).  `info` (a dict): receives the data of the leaves visited (orders, |L||U|, ...)."""
     if r is None:
         r, _, ax = residuals(A, b, x, n)
     if n > LU_NMAX:
@@ -381,23 +404,50 @@ def lu_componentwise(A, b, x, n, r=None, ax=None, quantum=None):
     zero = Fraction(0)
     # state: step k, rows M (current entries), W (accumulated |l||u| per row and column), scales, original indices
     # eta: accumulated relative uncertainty of the pivots met so far (a pivot known to 1e-4 only makes every later
-    # multiplier and entry uncertain by as much)
-    stack = [(0, [row[:] for row in A], [[zero] * n for _ in range(n)], scale0[:], list(range(n)), zero, zero)]
+    # multiplier and entry uncertain by as much); diag: |pivots| so far; EL (quantum mode): per row position the absolute
+    # underflow uncertainty E_i of its current entries and the tuple of its multipliers |l_i0|, |l_i1|, ..
+    uniform = quantum is not None and max(scale0) <= min(scale0) * 2 ** 340
+    stack = [(0, [row[:] for row in A], [[zero] * n for _ in range(n)], scale0[:], list(range(n)), zero, zero, (),
+              [(zero, ()) for _ in range(n)])]
     best = None
     unknown = False
     nodes = 0
     leaves = 0
     while stack:
-        k, M, W, sc, orig, maxl, eta = stack.pop()
+        k, M, W, sc, orig, maxl, eta, diag, EL = stack.pop()
         if k == n - 1:
             # leaf: the last row is its own pivot row
             last = n - 1
             W[last] = W[last][:]
             W[last][last] += abs(M[last][last])
             worst = Fraction(0)
-            extra = quantum * (1 + maxl) if quantum is not None else None
+            extras = None
+            if quantum is not None and any(w >= OVERFLOW / 2 for row in W for w in row):
+                # an entry of |L||U| at 2^1023 or beyond: a multiplier or a partial sum may have overflowed under this order
+                # (an infinite pivot then gives the finite but meaningless component c / inf = 0): not judged
+                unknown = True
+                continue
+            if quantum is not None:
+                dg = list(diag) + [abs(M[last][last])]
+                extras = []
+                for i in range(n):
+                    li = list(EL[i][1]) + [Fraction(1)]          # |l_i0| .. |l_i,i-1|, l_ii = 1  (position i has i multipliers)
+                    li = li[:i] + [Fraction(1)]
+                    t = Fraction(i + 1)
+                    for kk in range(i + 1):
+                        t += li[kk] * ((n - kk) + (dg[kk] if ax[kk] < SUBNORMAL_X else 0))
+                    for j in range(n):
+                        if ax[j] != 0:
+                            t += (min(i, j) + 1) * ax[j]
+                            if j < i and li[j] < SUBNORMAL_X:
+                                t += dg[j] * ax[j]
+                    extras.append(C_COMP * QUANTUM * t + (quantum * (1 + maxl) if uniform else 0))
+            if info is not None:
+                info.setdefault("leaves", []).append({"W": [row[:] for row in W], "orig": orig[:], "maxl": maxl,
+                                                       "diag": list(diag) + [abs(M[last][last])]})
             for i in range(n):
                 o = orig[i]
+                extra = extras[i] if extras is not None else None
                 if r[o] == 0 or (extra is not None and abs(r[o]) <= extra):
                     continue
                 Wi = W[i]
@@ -405,6 +455,8 @@ def lu_componentwise(A, b, x, n, r=None, ax=None, quantum=None):
                 for j in range(n):
                     if Wi[j] != 0 and ax[j] != 0:
                         den += Wi[j] * ax[j]
+                if quantum is not None and den >= OVERFLOW:
+                    continue
                 q = _ratio(r[o] if extra is None else abs(r[o]) - extra, den, n)
                 if q > worst:
                     worst = q
@@ -425,7 +477,7 @@ def lu_componentwise(A, b, x, n, r=None, ax=None, quantum=None):
             rr = m / sc[i]
             dl = (cu + eta) * (W[i][k] + m) / sc[i]
             if quantum is not None:
-                dl += (k + 1) * QUANTUM * (1 + maxl) / sc[i]
+                dl += (EL[i][0] + ((k + 1) * QUANTUM * (1 + maxl) if uniform else 0)) / sc[i]
             rho.append(rr)
             lo.append(rr * (1 - TIE_REL) - dl)
             hi.append(rr * (1 + TIE_REL) + dl)
@@ -434,22 +486,27 @@ def lu_componentwise(A, b, x, n, r=None, ax=None, quantum=None):
         if not adm:
             unknown = True                # the column vanishes exactly: singular, nothing to judge
             continue
+        if info is not None and len(adm) > 1:
+            info["branched"] = True
         # most plausible candidate last (popped first): largest exact ratio, first index on ties
         adm.sort(key=lambda i: (rho[i - k], -i))
         for p in adm:
             m = abs(M[p][k])
             dp = (cu + eta) * (W[p][k] + m)
             if quantum is not None:
-                dp += (k + 1) * QUANTUM * (1 + maxl)
+                dp += EL[p][0] + ((k + 1) * QUANTUM * (1 + maxl) if uniform else 0)
             if m == 0 or m < PIVOT_SIGNIF * dp:
                 unknown = True            # not significantly non-zero: exact and computed factors may differ wildly
+                if info is not None:
+                    info["insignificant"] = True
                 continue
-            M2 = [row for row in M]; W2 = [row for row in W]; sc2 = sc[:]; or2 = orig[:]
+            M2 = [row for row in M]; W2 = [row for row in W]; sc2 = sc[:]; or2 = orig[:]; EL2 = EL[:]
             if p != k:
                 M2[k], M2[p] = M2[p], M2[k]
                 W2[k], W2[p] = W2[p], W2[k]
                 sc2[k], sc2[p] = sc2[p], sc2[k]
                 or2[k], or2[p] = or2[p], or2[k]
+                EL2[k], EL2[p] = EL2[p], EL2[k]
             Mk = M2[k]
             piv = Mk[k]
             absk = [abs(v) for v in Mk]
@@ -458,12 +515,19 @@ def lu_componentwise(A, b, x, n, r=None, ax=None, quantum=None):
                 Wk[j] += absk[j]          # l_kk = 1 times row k of U
             W2[k] = Wk
             ml = maxl
+            if quantum is not None:
+                Ek = EL2[k][0]
+                umax = max(absk[k + 1:], default=zero)
             for i in range(k + 1, n):
                 a = M2[i][k]
                 if a == 0:
+                    if quantum is not None:
+                        EL2[i] = (EL2[i][0], EL2[i][1] + (zero,))
                     continue              # rows are shared between branches until modified
                 l = a / piv
                 al = abs(l)
+                if quantum is not None:
+                    EL2[i] = (EL2[i][0] + al * Ek + QUANTUM * (1 + (umax if al < SUBNORMAL_X else 0)), EL2[i][1] + (al,))
                 if al > ml:
                     ml = al
                 Mi = M2[i][:]; Wi = W2[i][:]
@@ -475,7 +539,7 @@ def lu_componentwise(A, b, x, n, r=None, ax=None, quantum=None):
                         Mi[j] -= l * u
                         Wi[j] += al * absk[j]
                 M2[i] = Mi; W2[i] = Wi
-            stack.append((k + 1, M2, W2, sc2, or2, ml, eta + dp / m))
+            stack.append((k + 1, M2, W2, sc2, or2, ml, eta + dp / m, diag + (abs(piv),), EL2))
     if best is not None and best <= C_COMP:
         return True, best, leaves
     if unknown or best is None:
@@ -596,16 +660,33 @@ def tiny_regime(A, b, tol, kind, x, n, strict=False):
     NaN / inf components is a failure when the oracle's own certificate says that nothing can go wrong: entries >= 2^-1050,
     certified well conditioned, exact solution below 2^900.  Entries above 2^340 (overflow side): not judged."""
     vals = [v for row in A for v in row] + list(b)
-    if any(abs(v) > SAFE_HI for v in vals):
+    huge = any(abs(v) > SAFE_HI for v in vals)
+    if kind != "ok":
+        # MIXED EXTREMES (fourth seeded round): a refusal of a system the oracle certifies itself as well conditioned (clause
+        # 3) is a failure at every magnitude at which neither a multiplier nor a pivot can be touched by under- or
+        # overflow: non-zero entries of A within 2^-990 .. 2^1000 and within 2^1010 of each other
+        if kind == "err" and tol <= TOL_ACCEPT and n <= 12:
+            nz = [abs(v) for row in A for v in row if v != 0]
+            if nz and min(nz) >= Fraction(1, 2 ** 990) and max(nz) <= BIG_OK and max(nz) <= min(nz) * 2 ** 1010:
+                c = certified_well_conditioned(A)
+                if c:
+                    return "well-conditioned system (%s; entries within 2^-990 .. 2^1000) refused with `%s` at tolerance %s" % (
+                        c, x, float(tol))
         return None
-    if kind != "ok" or tol < TOL_ROUNDING or n > 12:
+    if tol < TOL_ROUNDING or n > 12:
         return None
     if len(x) != n:
         return "solution has %d components for %d unknowns" % (len(x), n)
     if singular(A):
         return None
     if any(v is None for v in x):
-        if all(v == 0 or abs(v) >= Fraction(1, 2 ** 1050) for row in A for v in row) and certified_well_conditioned(A):
+        if huge:
+            why = _finite_owed(A, b, n)
+            if why:
+                return "solution contains NaN/inf although %s (tolerance %s)" % (why, float(tol))
+            return None
+        if all(v == 0 or abs(v) >= Fraction(1, 2 ** 1050) for row in A for v in row) and not _multiplier_overflow(A) \
+                and certified_well_conditioned(A):
             xe = solve_exact(A, b)
             if xe is not None and all(abs(v) <= TINY_HI for v in xe):
                 return ("solution contains NaN/inf on a tiny but well-conditioned system (entries >= 2^-1050, exact solution "
@@ -621,10 +702,63 @@ def tiny_regime(A, b, tol, kind, x, n, strict=False):
     if v is True and strict:
         return "passed"
     if v is False:
-        return ("tiny system (entries below 2^-340): an equation has |a_i.x - b_i| > 2^6 n u ((|L||U||x|)_i + |b_i|) + 2^6 n^2 "
-                "2^-1074 (1 + max|l|)(1 + |x|_inf) for every admissible pivot order (ratio of the excess to n u (..): %s)" % (
+        return ("system with entries outside 2^-340 .. 2^340: an equation has |a_i.x - b_i| > 2^6 n u ((|L||U||x|)_i + |b_i|) + "
+                "the underflow allowance 2^6 2^-1074 (n^2 (1 + max|l|)(1 + |x|_inf) + sum_j |u_jj||x_j| + ..) for every admissible "
+                "pivot order (ratio of the excess to n u (..): %s)" % (
                     "inf" if qc is None or qc >= INF_RATIO else "%.3g" % float(qc)))
     return None
+
+
+def _multiplier_overflow(A):
+    """two rows of A differ in magnitude by 2^1000 or more: a multiplier "entry of the larger row over pivot of the smaller
+    row" can leave the number range (2^1024), and then no floating-point elimination in this order has a finite answer.
+    Scaled partial pivoting chooses pivot rows by RELATIVE size, so a row 2^1030 times smaller than another is as likely to
+    become the pivot row as any; the unmodified code then returns NaN / inf components (an observation recorded in the notes
+    of every run, see `finish`; the statement's row scalings are 2^-30 .. 2^30, and no clause of the oracle is asserted
+    there)."""
+    rm = [max(abs(v) for v in row) for row in A]
+    rm = [v for v in rm if v != 0]
+    return bool(rm) and max(rm) >= min(rm) * 2 ** 1000
+
+
+def _finite_owed(A, b, n):
+    """certificate (exact arithmetic) that nothing in the elimination and the back substitution of A x = b can overflow, so
+    that a NaN / infinite component is a failure even with entries above 2^340: the pivot order of scaled partial pivoting
+    is determined beyond doubt and every pivot is significant (`lu_componentwise` on the exact solution, no branching),
+    |L||U|, the exact solution x and (1 + n max|l|) ((|L||U||x|)_i + |b_i|) stay below 2^1000, and
+    || |A^-1| |L||U| ||_inf 2^6 n u <= 2^-10 (every perturbed system the computed solution can be the exact solution of then
+    has a solution within a factor 2 of x).  Returns the reason or None."""
+    if n > 8:
+        return None
+    xe = solve_exact(A, b)
+    if xe is None or any(abs(v) > TINY_HI for v in xe):
+        return None
+    info = {}
+    ax = [abs(v) for v in xe]
+    v, q, orders = lu_componentwise(A, b, xe, n, [Fraction(0)] * n, ax, quantum=Fraction(0), info=info)
+    if v is not True or info.get("branched") or info.get("insignificant") or len(info.get("leaves", [])) != 1:
+        return None
+    leaf = info["leaves"][0]
+    W, orig, maxl = leaf["W"], leaf["orig"], leaf["maxl"]
+    if any(w >= BIG_OK for row in W for w in row):
+        return None
+    top = max(sum(W[i][j] * ax[j] for j in range(n)) + abs(b[orig[i]]) for i in range(n))
+    if (1 + n * maxl) * top >= BIG_OK:
+        return None
+    # |A^-1| |L||U| (rows of W are in elimination order: row i of W belongs to row orig[i] of A)
+    cols = []
+    for c in range(n):
+        cols.append(solve_exact(A, [Fraction(int(k == c)) for k in range(n)]))    # column c of A^-1
+    if any(col is None for col in cols):
+        return None
+    Wo = [None] * n
+    for i in range(n):
+        Wo[orig[i]] = W[i]
+    norm = max(sum(sum(abs(cols[t][i]) * Wo[t][j] for t in range(n)) for j in range(n)) for i in range(n))
+    if norm * C_COMP * n * U > Fraction(1, 2 ** 10):
+        return None
+    return ("nothing in the exact elimination comes near the overflow threshold (pivot order certain, |L||U| and |L||U||x| + |b| "
+            "below 2^1000, exact solution below 2^900)")
 
 
 def subst_oracle(back, h, w, A, size, b, ns, ans, want_ratio=False):
@@ -860,6 +994,11 @@ def tag(req, model):
     return f"{cmd}:{out}"
 
 
+def _has_nonfinite(ans):
+    k, x = parse_answer(ans)
+    return k == "ok" and any(v is None for v in x)
+
+
 def finish(rows, tier):
     """whole-run obligations: completeness of the exhaustive spaces, and the observed rounding margin"""
     notes = []
@@ -906,6 +1045,22 @@ def finish(rows, tier):
                     nc += 1
                     if qc > worstc:
                         worstc = qc
+    # systems whose rows differ by 2^1000 or more and that were answered with a non-finite vector (see `_multiplier_overflow`)
+    nover = 0; exover = None
+    for (req, impl) in eligible:
+        if _has_nonfinite(impl):
+            try:
+                h, w, A, b, tol, _ = _parse_gauss(req)
+                if all(v is not None for row in A for v in row) and _multiplier_overflow(A) and not singular(A):
+                    nover += 1
+                    if exover is None or len(req) < len(exover):
+                        exover = req
+            except Exception:
+                pass
+    if nover:
+        notes.append(f"{nover} non-singular systems whose rows differ in magnitude by 2^1000 or more were answered with NaN / inf "
+                     f"components (the multiplier `larger row / pivot of the smaller row` exceeds the number range; outside the "
+                     f"statement's row scalings 2^-30..2^30, not asserted by any clause), e.g. `{exover[:300]}`")
     small2 = {m for m in seen2 if all(x[0] == "i" and -2 <= int(x[1:]) <= 2 for x in m)}
     notes.append(f"exhaustive 2x2 over -2..2: {len(small2)}/625 matrices")
     notes.append(f"3x3 over -2..2: {len(seen3)}/1953125 distinct matrices")
@@ -919,3 +1074,32 @@ def finish(rows, tier):
     if tier == "thorough" and len(seen3) != 1953125:
         notes.append("INCOMPLETE: the 3x3 space was not covered")
     return notes
+
+
+def probe(req, impl):
+    """measurement aid (not used by ./check): for a solved system with entries outside 2^-340 .. 2^340 the ratio of clause 1b
+    (underflow allowance taken off) under the most plausible pivot order, and whether the oracle judged it"""
+    if not req.startswith("gauss "):
+        return {}
+    h, w, A, b, tol, jag = _parse_gauss(req)
+    kind, x = parse_answer(impl)
+    if h != w or len(b) != h or h == 0 or h > 12 or any(v is None for row in A for v in row) or any(v is None for v in b) or tol is None:
+        return {}
+    vals = [v for row in A for v in row] + list(b)
+    if in_safe_range(vals):
+        return {}
+    key = "huge" if any(abs(v) > SAFE_HI for v in vals) else "tiny"
+    if kind != "ok":
+        return {key + " refused": Fraction(1)}
+    if any(v is None for v in x) or tol < TOL_ROUNDING or singular(A):
+        return {key + " not judged": Fraction(1)}
+    n = h
+    r, d, ax = residuals(A, b, x, n)
+    quantum = 2 ** 6 * n * n * QUANTUM * (1 + max(ax))
+    v, qc, orders = lu_componentwise(A, b, x, n, r, ax, quantum=quantum)
+    out = {key + " solved": Fraction(1)}
+    if v is None:
+        out[key + " abstained"] = Fraction(1)
+    elif qc is not None:
+        out[key + " ratio"] = qc
+    return out
